@@ -55,6 +55,9 @@ structure DrvState where
   cache : Option (List (CacheKey × Bool)) := none
   /-- what `e.new` builds next -/
   wantCached : Bool := false
+  /-- a role-manager handle kept by the caller (`e.keeprm`): `some none` = it is still the enforcer's
+  current manager (an alias), `some (some rm)` = detached, with the content it had when replaced -/
+  keptRm : Option (Option (RoleMgr String)) := none
 
 def domOf (s : String) : String := if s == "-" then "DEFAULT" else unesc s
 
@@ -129,7 +132,13 @@ def builtinCall (userFns : List String) (f : String) (args : List String) : Opti
   | "keyMatch4", [a, c] => b (keyMatch4 a.toList c.toList)
   | "keyMatch5", [a, c] => b (keyMatch5 a.toList c.toList)
   | "regexMatch", [a, c] => b (regexMatchAnchored a.toList c.toList)
-  | "eqFn", [a, c] => if "eqFn" ∈ userFns then some (.bool (a == c)) else none
+  | "eqFn", [a, c] =>
+    -- the latest registration under the name decides (`name=impl`)
+    (match userFns.find? (fun u => u.startsWith "eqFn=") with
+     | some "eqFn=eq" => some (.bool (a == c))
+     | some "eqFn=ne" => some (.bool (a != c))
+     | some "eqFn=true" => some (.bool true)
+     | _ => none)
   | _, _ => none
 
 def tblFn (tbl : List (String × Option Expr)) (text : String) : Option Expr :=
@@ -234,7 +243,7 @@ def stepEnf (st : DrvState) (f : List String) : Option (DrvState × String) :=
     (match Enforcer.new st.spec.defs st.spec.store (mkAdapter kind content text) with
      | none => some (st, "err:model")
      | some (e, r) => some ({ st with enf := { e with hasWatcher := watcher == "w" }, tbl := st.spec.tbl,
-                                      cache := if st.wantCached then some [] else none }, resS r))
+                                      cache := if st.wantCached then some [] else none, keptRm := none }, resS r))
   | ["e.add", sec, pt, rule] => some (upd st (e.addPolicy sec pt (decList rule)))
   | ["e.addm", sec, pt, rules] => some (upd st (e.addPolicies sec pt (decLists rules)))
   | ["e.rm", sec, pt, rule] => some (upd st (e.removePolicy sec pt (decList rule)))
@@ -249,7 +258,16 @@ def stepEnf (st : DrvState) (f : List String) : Option (DrvState × String) :=
   | ["e.loadf", fp, fg] => some (upd st (e.loadFilteredPolicy (decList fp) (decList fg)))
   | ["e.save"] => some (upd st e.savePolicy)
   | ["e.build"] => let r := e.buildRoleLinks; some ({ st with enf := r.1 }, match r.2 with | none => "ok" | some k => "err:" ++ k.toString)
-  | ["e.setrm"] => some (upd st e.setRoleManager)
+  | ["e.keeprm"] => some ({ st with keptRm := some none }, "ok")
+  | ["e.setrm"] =>
+    -- a kept alias is detached with the content it has now
+    let st := match st.keptRm with | some none => { st with keptRm := some (some e.rm) } | _ => st
+    some (upd st e.setRoleManager)
+  | ["e.setrm", "kept"] =>
+    (match st.keptRm with
+     | none => some (st, "no-kept")
+     | some none => some (upd st (e.setRoleManagerWith e.rm))
+     | some (some r) => some (upd { st with keptRm := some none } (e.setRoleManagerWith r)))
   | ["e.setmodel"] =>
     let r := e.setModel st.spec.defs st.spec.store
     some ({ st with enf := r.1, tbl := st.spec.tbl }, resS r.2)
@@ -278,7 +296,8 @@ def stepEnf (st : DrvState) (f : List String) : Option (DrvState × String) :=
      | "notify" => some ({ st with enf := e.enableAutoNotify v }, "ok")
      | "enforce" => some ({ st with enf := { e with enabled := v } }, "ok")
      | _ => none)
-  | ["e.addfn", n] => some ({ st with enf := { e with userFns := unesc n :: e.userFns } }, "ok")
+  | ["e.addfn", n] => some ({ st with enf := { e with userFns := (unesc n ++ "=eq") :: e.userFns } }, "ok")
+  | ["e.addfn", n, impl] => some ({ st with enf := { e with userFns := (unesc n ++ "=" ++ impl) :: e.userFns } }, "ok")
   | ["e.seteft"] => some (st, "ok")
   | "e.enf" :: vals => let r := enfCached st none vals; some (r.1, outS r.2)
   | "e.enfc" :: suffix :: vals => let r := enfCached st (some (unesc suffix)) vals; some (r.1, outS r.2)
